@@ -1,6 +1,8 @@
 """crypto/crypto_aes*.c, crypto/crypto_aesctr*.c: correspondence of the compiled library (two build
 configurations: AES-NI and software-only/OpenSSL) with the extracted models and with the FIPS-197 /
-SP 800-38A spec; wipe-on-free observed through --wrap=malloc/free (C20)."""
+SP 800-38A spec; wipe-on-free observed through --wrap=malloc/free (C20); a third build of the AES-NI
+configuration (--wrap=malloc + wrapped AES-NI entry points) in which an allocation of the first-use
+self-test is refused: both modules must then select the same implementation (check_aes_select)."""
 import glob
 import os
 
